@@ -4,26 +4,9 @@
    ([revoke_window]); LocksProofs shows that the go2coq translations Pure.PillarGetRevokeStatus /
    Pure.GetSentinelRevokeStatus are exactly this function at the constants dumped from /repo. *)
 From ZV Require Import Prelude GoSem Abi VmReceive Emb.
+From ZV Require Export LockEnv Pillar.
 From ZV.gen Require Import Consts Pure.
 Open Scope Z_scope.
-
-Definition E_already_registered := 18.
-Definition E_not_enough_deposited_qsr := 19.
-Definition E_already_revoked := 20.
-Definition E_invalid_name := 21.
-Definition E_not_active := 22.
-
-(* implementation.PillarGetRevokeStatus / GetSentinelRevokeStatus with the window lengths as parameters *)
-Definition revoke_window (lock rev reg now : Z) : res (bool * Z) :=
-  guard (negb (wrapS 64 (lock + rev) =? 0))
-    (let epochTime := wrapS 64 (Z.rem (wrapS 64 (now - reg)) (wrapS 64 (lock + rev))) in
-     if epochTime <? lock then Ok (false, wrapS 64 (lock - epochTime))
-     else Ok (true, wrapS 64 (wrapS 64 (lock + rev) - epochTime))).
-
-(* frontier momentum time + the constants of the two contracts (the harness shortens the windows) *)
-Record lenv := { l_now : Z;
-                 c_SentinelLock : Z; c_SentinelRevoke : Z; c_SentinelZnn : Z; c_SentinelQsr : Z;
-                 c_PillarLock : Z; c_PillarRevoke : Z; c_PillarStake : Z }.
 
 (* ================================================================ sentinel.go *)
 Section SentinelC.
@@ -102,74 +85,7 @@ Section SentinelC.
     end.
 End SentinelC.
 
-(* ================================================================ pillars.go (Revoke, DepositQsr, WithdrawQsr) *)
-Section PillarC.
-  Variable name_ok : bytes -> bool.      (* checkPillarNameStatic: length bound + regexp, observed from the implementation *)
-
-  Record pillar := { l_owner : bytes; l_amount : Z; l_reg : Z; l_revoke : Z }.   (* key = name; other fields untouched *)
-  Record lstore := { l_pillars : tab pillar; l_dep : tab Z }.
-  Notation acct := (cacct lstore).
-  Notation send := VmReceive.send.
-
-  Definition pillar_revoke_validate (s : send) : vres bytes :=
-    match unpack_args Sel_pillars_Revoke [TString] (s_data s) with
-    | VOk [VBytes name] =>
-      if negb (name_ok name) then VErr E_invalid_name else
-      if negb (s_amount s =? 0) then VErr E_token_or_amount else VOk name
-    | VOk _ => VPanic
-    | VErr c => VErr c | VPanic => VPanic
-    end.
-  Definition pillar_revoke_receive (e : lenv) (a : acct) (s : send) : mres lstore :=
-    match pillar_revoke_validate s with
-    | VErr c => MErr c | VPanic => MPanic
-    | VOk _ =>
-      match pillar_revoke_validate s with
-      | VOk name =>
-        let st := a_store a in
-        match tget (l_pillars st) name with
-        | None => MErr E_nonexistent
-        | Some p =>
-          if negb (l_revoke p =? 0) then MErr E_not_active else
-          if negb (bytes_eqb (l_owner p) (s_from s)) then MErr E_permission else
-          match revoke_window (c_PillarLock e) (c_PillarRevoke e) (l_reg p) (l_now e) with
-          | Panic => MPanic
-          | Ok (false, _) => MErr E_revoke_not_due
-          | Ok (true, _) =>
-            let p' := {| l_owner := l_owner p; l_amount := 0; l_reg := l_reg p; l_revoke := l_now e |} in
-            MOk (with_store a {| l_pillars := tput (l_pillars st) name p'; l_dep := l_dep st |})
-                [{| d_to := l_owner p; d_amount := c_PillarStake e; d_zts := ZtsZnn; d_data := [] |}]
-          end
-        end
-      | _ => MPanic
-      end
-    end.
-
-  Definition pillar_deposit_receive (a : acct) (s : send) : mres lstore :=
-    match deposit_qsr_validate s with
-    | VErr c => MErr c | VPanic => MPanic
-    | VOk _ =>
-      let st := a_store a in
-      let cur := match tget (l_dep st) (s_from s) with Some v => v | None => 0 end in
-      MOk (with_store a {| l_pillars := l_pillars st; l_dep := tput (l_dep st) (s_from s) (u256 (cur + s_amount s)) |}) []
-    end.
-  Definition pillar_withdraw_receive (a : acct) (s : send) : mres lstore :=
-    match withdraw_qsr_validate s with
-    | VErr c => MErr c | VPanic => MPanic
-    | VOk _ =>
-      let st := a_store a in
-      let cur := match tget (l_dep st) (s_from s) with Some v => v | None => 0 end in
-      if cur =? 0 then MErr E_nothing_to_withdraw else
-      MOk (with_store a {| l_pillars := l_pillars st; l_dep := tdel (l_dep st) (s_from s) |})
-          [{| d_to := s_from s; d_amount := cur; d_zts := ZtsQsr; d_data := [] |}]
-    end.
-End PillarC.
-
 (* ================================================================ liabilities *)
-Fixpoint tsum {V} (f : V -> Z) (t : tab V) : Z := match t with [] => 0 | (_, v) :: r => f v + tsum f r end.
-(* keys are unique (a leveldb table) *)
-Fixpoint tnodup {V} (t : tab V) : Prop := match t with [] => True | (k, _) :: r => tget r k = None /\ tnodup r end.
-
-Definition zsel (z z' : bytes) (x : Z) : Z := if bytes_eqb z z' then x else 0.
 
 (* what each contract owes, per token standard z *)
 Definition liab_stake (st : sstore) (z : bytes) : Z := zsel ZtsZnn z (tsum k_amount st).
